@@ -9,6 +9,7 @@ import warnings
 from typing import Union, Optional
 import numpy as np
 from math import inf, ceil
+from fractions import Fraction
 import partitura.score as spt
 from partitura.utils import PathLike, get_document_name, symbolic_to_numeric_duration
 
@@ -758,9 +759,13 @@ class SplineParser(object):
                 )
             )
 
-            symbolic_duration = copy.deepcopy(KERN_DURS[diff[min(list(diff.keys()))]])
-            symbolic_duration["actual_notes"] = int(dur // 4)
-            symbolic_duration["normal_notes"] = int(diff[min(list(diff.keys()))]) // 4
+            base = diff[min(list(diff.keys()))]
+            symbolic_duration = copy.deepcopy(KERN_DURS[base])
+            # the reciprocal value is base * actual / normal (12 = 8 * 3 / 2, 6 = 4 * 3 / 2,
+            # 10 = 8 * 5 / 4): dividing both by 4 is only right for multiples of 4
+            ratio = Fraction(dur) / int(base)
+            symbolic_duration["actual_notes"] = ratio.numerator
+            symbolic_duration["normal_notes"] = ratio.denominator
         if dots:
             symbolic_duration["dots"] = dots
         self.note_duration_values[self.total_parsed_elements] = (
